@@ -36,7 +36,7 @@ pub fn zoo() -> SchemaDoc {
             TypeDef::Interface { name: "Named".into(), fields: vec![f("name", n("String"))] },
             obj("Dog", &["Animal", "Named"], vec![f("id", nn(n("ID"))), f("name", n("String")), f("friends", l(n("Animal"))), f("born", n("Date")), f("barks", nn(n("Boolean"))), f("owner", n("Person")), f("color", nn(n("Color")))]),
             obj("Cat", &["Animal"], vec![f("id", nn(n("ID"))), f("name", n("String")), f("friends", l(n("Animal"))), f("born", n("Date")), f("lives", nn(n("Int"))), f("weights", nn(l(nn(n("Float")))))]),
-            obj("Person", &["Named"], vec![f("name", n("String")), f("pets", nn(l(nn(n("Animal"))))), f("best", n("Pet")), f("parent", n("Person")), f("tags", l(l(nn(n("String"))))), f("ids", l(n("ID")))]),
+            obj("Person", &["Named"], vec![f("name", n("String")), f("pets", nn(l(nn(n("Animal"))))), f("best", n("Pet")), f("parent", n("Person")), f("tags", l(l(nn(n("String"))))), f("ids", l(n("ID"))), f("codes", nn(l(n("ID")))), f("keys", nn(l(nn(n("ID")))))]),
             TypeDef::Union { name: "Pet".into(), members: vec!["Dog".into(), "Cat".into()] },
             TypeDef::Union { name: "Anything".into(), members: vec!["Dog".into(), "Person".into(), "Cat".into()] },
             obj("Query", &[], vec![f("me", n("Person")), f("animals", nn(l(n("Animal")))), f("search", l(nn(n("Anything")))), f("pet", n("Pet")), f("dog", nn(n("Dog"))), f("named", n("Named")), f("count", nn(n("Int")))]),
@@ -142,9 +142,69 @@ pub fn directed() -> Vec<Program> {
         op("TypenameElsewhere", vec![Sel::obj("animals", vec![fld("name"), sp("DogTn")]), Sel::obj("pet", vec![sp("DogTn")])]),
     ], |_| {}));
     out.last_mut().unwrap().tags.push("rejected-by-design".into());
+    // 15. every shape of ID list: nullable list, required list of nullable IDs, required list of required IDs
+    //     (a required list must be present: `default` belongs to the nullable one only)
+    out.push(prog(vec![op("IdLists", vec![Sel::obj("me", vec![fld("ids"), fld("codes"), fld("keys"), Sel::obj("parent", vec![fld("codes")])])])], |_| {}));
     // 11. the same schema, the extension's implementor only as a runtime type
     out.push(prog_on(zoo_extended(), vec![
         op("ExtendedPlain", vec![Sel::obj("named", vec![t(), fld("name")]), Sel::obj("me", vec![fld("age"), fld("name")])]),
     ], |_| {}));
     out
+}
+
+/// A schema in the naming style of Hasura / PostGraphile (`lower_snake` and acronym type names, enum
+/// and input names that `normalization = "rust"` spells differently), with an operation that selects
+/// some members of a union and of an interface and leaves others unselected.  Whatever normalization
+/// does to the Rust names, the `__typename` strings, keys and enum values on the wire are the schema's.
+pub fn snake_case_types() -> Vec<Program> {
+    let t = Sel::typename;
+    let fld = Sel::field;
+    let schema = SchemaDoc {
+        defs: vec![
+            TypeDef::Enum { name: "post_state".into(), values: vec!["draft".into(), "PUBLISHED".into(), "in_review".into()] },
+            TypeDef::Interface { name: "node_like".into(), fields: vec![f("id", nn(n("ID")))] },
+            obj("blog_post", &["node_like"], vec![f("id", nn(n("ID"))), f("title", n("String")), f("state", nn(n("post_state"))), f("author", n("user_account"))]),
+            obj("user_account", &["node_like"], vec![f("id", nn(n("ID"))), f("login", nn(n("String"))), f("posts", l(nn(n("blog_post"))))]),
+            obj("HTTPLink", &[], vec![f("url", nn(n("String"))), f("hits", n("Int"))]),
+            TypeDef::Union { name: "search_result".into(), members: vec!["blog_post".into(), "user_account".into(), "HTTPLink".into()] },
+            obj("Query", &[], vec![f("search", l(nn(n("search_result")))), f("node", n("node_like")), f("top_post", n("blog_post"))]),
+        ],
+        schema_block: None,
+        input_defaults: vec![],
+    };
+    let doc = vec![op("snakeSearch", vec![
+        Sel::obj("search", vec![t(), on("blog_post", vec![fld("title"), fld("state")]), on("HTTPLink", vec![fld("url"), fld("hits")])]),
+        Sel::obj("node", vec![t(), fld("id"), on("user_account", vec![fld("login"), Sel::obj("posts", vec![fld("title")])])]),
+        Sel::obj("top_post", vec![fld("state"), Sel::obj("author", vec![fld("login")])]),
+    ])];
+    vec![
+        prog_on(schema.clone(), doc.clone(), |_| {}),
+        prog_on(schema.clone(), doc.clone(), |o| { o.normalization_rust = true; }),
+        prog_on(schema, doc, |o| { o.normalization_rust = true; o.fragments_other_variant = true; }),
+    ]
+}
+
+/// A deprecated object-typed field whose sub-selection is the only place where an enum, a custom
+/// scalar and a fragment are mentioned, under each deprecation strategy: whatever is emitted for
+/// the sub-selection must find its types, whether or not the field itself is kept.
+pub fn deprecated_subtree() -> Vec<Program> {
+    let t = Sel::typename;
+    let fld = Sel::field;
+    let mut schema = zoo();
+    for d in schema.defs.iter_mut() {
+        if let TypeDef::Object { name, fields, .. } = d {
+            if name == "Dog" {
+                for fd in fields.iter_mut() {
+                    if fd.name == "owner" {
+                        fd.deprecated = Some(Some("use `keeper`".into()));
+                    }
+                }
+            }
+        }
+    }
+    let doc = vec![
+        frag("PetBits", "Cat", vec![fld("lives"), fld("born")]),
+        op("OldOwner", vec![Sel::obj("dog", vec![fld("barks"), Sel::obj("owner", vec![fld("name"), Sel::obj("pets", vec![t(), on("Dog", vec![fld("color")]), on("Cat", vec![sp("PetBits")])])])])]),
+    ];
+    (0..3u8).map(|k| prog_on(schema.clone(), doc.clone(), move |o| { o.deprecation = Some(k); })).collect()
 }
